@@ -376,7 +376,6 @@ func (m *Machine) executeValue(v Obj) *PSError {
 		return m.callOp(v.S)
 	case v.K == KName && v.X:
 		// an executable name as the value of a name is executed in turn
-		m.Unsupported = "executable name as value"
 		return m.execute(v, false)
 	default:
 		m.push(v)
